@@ -205,6 +205,8 @@ pub struct DirCtx<TC: HasRef> {
     pub ident_upto: u64,
     /// max number of versions per label (for sizing the sweep)
     pub versions: HashMap<String, u64>,
+    /// which observation kinds the sweep performs (empty = all)
+    pub kinds: Vec<String>,
 }
 
 pub fn rid(d: &Digest) -> String {
@@ -248,6 +250,7 @@ impl<TC: HasRef> DirCtx<TC> {
             ident: HashMap::new(),
             ident_upto: 0,
             versions: HashMap::new(),
+            kinds: vec![],
         }
     }
 
@@ -539,50 +542,62 @@ impl<TC: HasRef> DirCtx<TC> {
     }
 
     /// The full observation sweep of the current state.
+    fn wants(&self, k: &str) -> bool {
+        self.kinds.is_empty() || self.kinds.iter().any(|x| x == k)
+    }
+
     pub async fn sweep(&mut self, tr: &mut Tracer) {
-        self.ev_epoch_hash(tr).await;
-        let labels = self.labels.clone();
-        for l in labels.iter() {
-            self.ev_lookup(l, tr).await;
+        if self.wants("epoch_hash") {
+            self.ev_epoch_hash(tr).await;
         }
-        self.ev_lookup("zz", tr).await;
+        let labels = self.labels.clone();
         let published: Vec<String> = labels
             .iter()
             .filter(|l| self.versions.get(*l).copied().unwrap_or(0) > 0)
             .cloned()
             .collect();
-        if !published.is_empty() {
-            self.ev_batch_lookup(&published, tr).await;
-        }
-        if published.len() < labels.len() {
-            // a batch containing a never-published label must fail as a whole
-            self.ev_batch_lookup(&labels, tr).await;
-        }
-        for l in labels.iter() {
-            let total = self.versions.get(l).copied().unwrap_or(0);
-            if total == 0 {
-                self.ev_history(l, 0, false, tr).await;
-                continue;
+        if self.wants("lookup") {
+            for l in labels.iter() {
+                self.ev_lookup(l, tr).await;
             }
-            for allow in [false, true] {
-                self.ev_history(l, 0, allow, tr).await;
-                for n in 1..=(total + 1) {
-                    self.ev_history(l, n, allow, tr).await;
+            self.ev_lookup("zz", tr).await;
+            if !published.is_empty() {
+                self.ev_batch_lookup(&published, tr).await;
+            }
+            if published.len() < labels.len() {
+                // a batch containing a never-published label must fail as a whole
+                self.ev_batch_lookup(&labels, tr).await;
+            }
+        }
+        if self.wants("history") {
+            for l in labels.iter() {
+                let total = self.versions.get(l).copied().unwrap_or(0);
+                if total == 0 {
+                    self.ev_history(l, 0, false, tr).await;
+                    continue;
+                }
+                for allow in [false, true] {
+                    self.ev_history(l, 0, allow, tr).await;
+                    for n in 1..=(total + 1) {
+                        self.ev_history(l, n, allow, tr).await;
+                    }
                 }
             }
         }
-        let cur = self.roots.len() as u64 - 1;
-        for s in 0..=cur {
-            for e in (s + 1)..=cur {
-                self.ev_audit(s, e, tr).await;
+        if self.wants("audit") {
+            let cur = self.roots.len() as u64 - 1;
+            for s in 0..=cur {
+                for e in (s + 1)..=cur {
+                    self.ev_audit(s, e, tr).await;
+                }
             }
-        }
-        // refused ranges
-        self.ev_audit(cur, cur, tr).await;
-        self.ev_audit(0, cur + 1, tr).await;
-        if cur >= 1 {
-            self.ev_audit(cur, cur - 1, tr).await;
-            self.ev_audit(cur - 1, cur + 1, tr).await;
+            // refused ranges
+            self.ev_audit(cur, cur, tr).await;
+            self.ev_audit(0, cur + 1, tr).await;
+            if cur >= 1 {
+                self.ev_audit(cur, cur - 1, tr).await;
+                self.ev_audit(cur - 1, cur + 1, tr).await;
+            }
         }
     }
 }
@@ -594,6 +609,9 @@ pub async fn run_behaviour<TC: HasRef>(b: &Value, tr: &mut Tracer) {
     let values: Vec<String> = b["values"].as_array().unwrap().iter().map(|x| x.as_str().unwrap().to_string()).collect();
     let conc = b["conc"].as_u64().unwrap_or(0);
     let mut ctx = DirCtx::<TC>::new(conc, cell.clone(), labels, values).await;
+    if let Some(k) = b["kinds"].as_array() {
+        ctx.kinds = k.iter().map(|x| x.as_str().unwrap().to_string()).collect();
+    }
     // make sure the value universe is concretized (so that value_name can find them)
     for v in ctx.values.clone() {
         ctx.conc.value(&v);
